@@ -285,6 +285,8 @@ func (vc *VC) applyContract(call ssa.CallInstruction, con *Contract, names []str
 	for i, n := range names {
 		if i < len(args) {
 			ce.vars[n] = cval{t: args[i], typ: argTypes[i]}
+			// (<param>0, the entry value of the parameter, is the argument for the caller)
+			ce.vars[n+"0"] = cval{t: args[i], typ: argTypes[i]}
 		}
 	}
 	props := con.Props
@@ -359,8 +361,7 @@ func (vc *VC) builtin(call ssa.CallInstruction, b *ssa.Builtin) {
 		case *types.Basic:
 			vc.setVal(v, sx("slen", a))
 		case *types.Map:
-			vc.setVal(v, sx("maplen_i", a))
-			vc.gfact(Ge(vc.val[v], "0"))
+			vc.setVal(v, vc.mapLen(vc.cur, a, c.Args[0].Type().Underlying().(*types.Map)))
 		default:
 			vc.havocVal(v)
 		}
@@ -381,6 +382,9 @@ func (vc *VC) builtin(call ssa.CallInstruction, b *ssa.Builtin) {
 	case "delete":
 		mt := c.Args[0].Type().Underlying().(*types.Map)
 		m, k := vc.v(c.Args[0]), vc.v(c.Args[1])
+		if key, obj := vc.fieldOfMap(c.Args[0]); key != "" {
+			vc.atStoreClauses(key, call.Pos(), "", nil, vc.v(obj), obj.Type())
+		}
 		d, _, ds, _ := vc.e.mapArrs(mt)
 		da := vc.arrCur(d, ds)
 		// delete on nil map is a no-op
